@@ -14,7 +14,7 @@ def body_pruning(case, rec):
     kind, invert, strategy = case["kind"], case["invert"], case["strategy"]
     t0, _, style = cg.corpus()[ti]
     if rx.slow_known(t0, kind, invert):
-        rec.label("excluded:known-h2-full-its-backward")
+        rec.label("excluded:slow-h2-full-its-backward")
         return
     if case.get("tmaps"):
         t0 = cg.variant(t0, dict(maps=case["tmaps"]))
